@@ -30,6 +30,22 @@ def run_np_case(rec, k):
     a = A(larr, unit=UNITSTR[lu])
     rk = c["rk"]
     raw = larr
+    if rk == "none" and f.endswith("_out0"):
+        # a full reduction written into a 0-d Array given as out=: the target is returned and carries the unit of the result
+        name = f[:-5]
+        tgt = A(0.0, unit="s")
+        try:
+            res = getattr(np, name)(a, out=tgt)
+        except Exception as e:
+            return "mismatch", f"np.{name}(a, out=<0-d Array>) raised {type(e).__name__}: {e}", {}
+        want = getattr(np, name)(larr.astype(float))
+        if res is not tgt:
+            return "mismatch", f"np.{name}(a, out=x) did not return x", {}
+        if sparse_of_pint(tgt.unit) != SPARSE[lu]:
+            return "mismatch", f"unit: np.{name}(a [{lu}], out=x) left x with unit {tgt.unit}", {}
+        if abs(float(tgt.values) - float(want)) > 1e-6 * max(1.0, abs(float(want))):
+            return "mismatch", f"value: np.{name}(a, out=x) holds {tgt.values!r}, numpy gives {want!r}", {}
+        return "match", None, {}
     if rk == "none":
         name, args, kw = FORMS.get(f, (f, (), {}))
         if f.startswith("power_"):
